@@ -110,7 +110,7 @@ def run_fonts(report, n, rng):
     from harness import build, picture, e2e
 
     for i in range(n):
-        fmt = ["glyf_colr_1", "glyf_colr_0"][i % 2]
+        fmt = ["glyf_colr_1", "glyf_colr_0", "cff2_colr_0", "cff_colr_1", "cff_colr_0", "cff2_colr_1"][i % 6]
         by_index = {}  # N -> (css colour, alpha): one colour (and in COLRv0 one alpha) per index in a font
         srcs, expect = [], []
         for k in range(rng.randint(1, 4)):
@@ -160,7 +160,10 @@ def run_fonts(report, n, rng):
             expect.append(exp)
         case = dict(kind="e2e", format=fmt, sources=[s[1] for s in srcs])
         try:
-            font, cfg, picos, _ = build.build_inprocess(dict(color_format=fmt, reuse_tolerance=-1.0), srcs)
+            over = dict(color_format=fmt, reuse_tolerance=-1.0)
+            if fmt.startswith("cff"):
+                over["output_file"] = "Font.otf"
+            font, cfg, picos, _ = build.build_inprocess(over, srcs)
         except Exception as ex:
             case["error"] = f"{type(ex).__name__}: {ex}"
             report_failure(report, f"font_build_{i}", case)
@@ -189,6 +192,8 @@ def run_fonts(report, n, rng):
                 want.append(((0, 0, 0), 1.0))
         got = [((c.red, c.green, c.blue), c.alpha) for c in font["CPAL"].palettes[0]]
         probs = []
+        if font["COLR"].version != (0 if v0 else 1):
+            probs.append(f"{fmt} built a COLR version {font['COLR'].version} table")
         if len(got) != len(want) or any(g[0] != w[0] or abs(g[1] - w[1] * 255) > 1.0 for g, w in zip(got, want)):
             probs.append(f"CPAL {got} != specified palette {[(w[0], round(w[1] * 255)) for w in want]}")
         for (fn, text, cps), exp in zip(srcs, expect):
